@@ -205,6 +205,14 @@ func Corpus() []*Scenario {
 	// and the partition goes through a second retry episode (seeded mutation C01-1: buffer failed but not cleared)
 	out = append(out, FlushFail("corpus/leader-unavailable-at-flush", 1, 1, 3, 1, 6, 0))
 	out = append(out, FlushFail("corpus/leader-unavailable-at-flush-2", 2, 2, 2, 2, 7, 1))
+	// idempotent: a batch re-sent by retryBatch fails on the connection (retries + 2) while the leader is unavailable; the
+	// partition worker, whose level 1 ended on the failed lookup, then meets retries = 2 without a broker worker.  Pinned
+	// tree: nil-pointer panic in newHighWatermark (signature c01:nil-broker-producer-at-new-level); repaired by
+	// fixes/c01_newhwm_nil_broker_producer.patch (the lookup comes first, a failure fails the message)
+	out = append(out, &Scenario{Name: "corpus/nil-bp-at-new-level", Brokers: 1, Partitions: 1, Topics: []string{"t0"}, RetryMax: 2, Idempotent: true, V2: true,
+		Msgs:   []MsgSpec{two(1), {ID: 2, Topic: "t0", Choice: 0, Wave: 1}},
+		Script: []Fault{{Kind: Retriable, Err: 6, Only: -1}, {Kind: DropBefore, Only: -1, MetaDown: true}},
+		Holds:  []HoldSpec{{Kind: "bp.response", Nth: 1}, {Kind: "pp.newHWM", Nth: 1, Until: "bp.response", UntilNth: 2}}})
 	// connection drop, leader move, metadata failure
 	out = append(out, &Scenario{Name: "corpus/drop-and-move", Brokers: 2, Partitions: 2, Topics: []string{"t0"}, RetryMax: 2, V2: true, FlushMsgs: 2,
 		Msgs:   []MsgSpec{two(1), {ID: 2, Topic: "t0", Choice: 1}, two(3), {ID: 4, Topic: "t0", Choice: 1}, two(5)},
